@@ -56,12 +56,12 @@ pub fn property() -> Property {
         ],
         subs: vec![
             enum_sub("labels_exhaustive", |t: Tier| labels::enum_cases(t), labels::check).chunks(16),
-            prop_sub("labels_random", 4000, 80000, |t: Tier| labels::strategy(t), labels::check).require(&["cells_observed"]),
-            prop_sub("regression", 3000, 60000, |t: Tier| regress::strategy(t), regress::check),
-            prop_sub("roc_random", 4000, 80000, |t: Tier| roc::strategy(t), roc::check),
+            prop_sub("labels_random", 40000, 800000, |t: Tier| labels::strategy(t), labels::check).chunks(16).require(&["cells_observed"]),
+            prop_sub("regression", 30000, 600000, |t: Tier| regress::strategy(t), regress::check).chunks(16),
+            prop_sub("roc_random", 40000, 800000, |t: Tier| roc::strategy(t), roc::check).chunks(16),
             enum_sub("roc_exhaustive", |t: Tier| roc::enum_cases(t), roc::check),
-            prop_sub("silhouette", 1500, 30000, |t: Tier| cluster::strategy(t), cluster::check),
-            prop_sub("pearson", 1500, 30000, |t: Tier| corr::strategy(t), corr::check),
+            prop_sub("silhouette", 10000, 200000, |t: Tier| cluster::strategy(t), cluster::check),
+            prop_sub("pearson", 10000, 200000, |t: Tier| corr::strategy(t), corr::check),
         ],
     }
 }
